@@ -73,7 +73,9 @@ def run(chk):
     chk.cov["rule"] = ("seeded programs of tools/capygen.py (integers i16/i32/u8/u32/i64 with wrapping arithmetic, "
                        "shifts, casts, bool with short-circuit operators, arrays, nested structs, functions, "
                        "if / while / loop, labeled blocks with values, break / continue with and without labels, "
-                       "early return, defer, copy semantics of aggregates; some end in an out-of-range index); "
+                       "early return, defer, copy semantics of aggregates, optionals / enums with switch, #unwrap, "
+                       "#is_variant, .try, pointers to variables / fields / elements with stores through them "
+                       "in the same frame and from callees; some end in an out-of-range index); "
                        "each one executed and validated against the TLA+ interpreter")
 
 
